@@ -106,6 +106,7 @@ RETURNS = {
 SAME = {"numpy.ravel", "numpy.atleast_1d", "numpy.asarray", "numpy.array", "numpy.squeeze", "numpy.copy",
         "verde.base.utils.check_coordinates", "builtins.tuple", "builtins.list", "builtins.float", "builtins.int",
         "numpy.ascontiguousarray", "numpy.asanyarray"}
+COMPARABLE = {"arr", "val", "lo", "hi"}
 SAME_METH = {"ravel", "copy", "reshape", "strip", "astype", "flatten", "dropna"}
 SAME_ATTR = {"values", "T"}
 PLAIN = {"arr", "lo", "hi", "val", "ext", "sp", "pad", "cnt"}
@@ -247,6 +248,19 @@ class Checker:
             return self.call(t, env)
         if k == "unop" and t[1] in ("neg", "pos"):
             return self.role(t[2], env)
+        if k == "unop" and t[1] in ("~", "not"):
+            self.role(t[2], env)
+            return None
+        if k == "cmp" and t[1] in ("<", "<=", ">", ">="):
+            # an ordering comparison between two quantities measured along different horizontal axes is a unit error
+            a, b = self.role(t[2], env), self.role(t[3], env)
+            if isinstance(a, A) and isinstance(b, A) and a.axis in ("E", "N") and b.axis in ("E", "N") and a.kind in COMPARABLE and b.kind in COMPARABLE:
+                self.note(a.axis == b.axis, "compare", "%s between %s and %s" % (t[1], a.kind, b.kind), "%s %s %s   in %s" % (a, t[1], b, show(t)[:90]))
+            return None
+        if k == "boolop":
+            for x in t[2]:
+                self.role(x, env)
+            return None
         return None
 
     def sub(self, t, env):
@@ -592,6 +606,12 @@ def check_paths(ctx, rule, qual, paths, ret=None, skip_kinds=(), only_kinds=None
                 ck.role(ev.data[0])
             elif ev.kind == "aug":
                 ck.role(ev.data[3])
+            # ordering comparisons are typed wherever they occur (mask expressions, index expressions, branch conditions)
+            for d in ev.data:
+                if isinstance(d, tuple):
+                    for x in walk(d):
+                        if isinstance(x, tuple) and x and x[0] == "cmp" and x[1] in ("<", "<=", ">", ">="):
+                            ck.role(x)
         if p.exit == "return":
             got = ck.role(p.value)
             if ret is not None:
